@@ -152,14 +152,15 @@ class MetadataGenerator:
                         if len(field.type) == 1:
                             field.type = field.type.types[0]
                     else:
-                        if field_original == field or (isinstance(field, DOptional) and field_original == field.type):
+                        if field_original == field:
                             continue
-                        field = DUnion(
-                            *(field.types if isinstance(field, DUnion) else [field]),
-                            *(field_original.types if isinstance(field_original, DUnion) else [field_original])
-                        )
-                        if len(field) == 1:
-                            field = field.types[0]
+                        if not (isinstance(field, DOptional) and field_original == field.type):
+                            field = DUnion(
+                                *(field.types if isinstance(field, DUnion) else [field]),
+                                *(field_original.types if isinstance(field_original, DUnion) else [field_original])
+                            )
+                            if len(field) == 1:
+                                field = field.types[0]
 
                 fields[name] = field
 
